@@ -788,6 +788,22 @@ pub fn judge_l(case: &LCase, end: &SimEnd, o: &LObs) -> LVerdict {
         let verdict = check_stream(&case.cfg, &model, &obs);
         inconclusive |= verdict.inconclusive;
         if !verdict.violations.is_empty() {
+            // C06's last clause: a well-behaved connection with a well-formed stream whose replies are
+            // wrong while a malformed / hostile peer is (or was) connected to the same server
+            let misbehaving_other = case.conns.iter().zip(o.conns.iter()).enumerate().any(|(j, (lcj, cj))| {
+                j != i && cj.connected && (lcj.peer != Peer::Healthy || cj.faulted_by_script || model_stream(&case.cfg, &cj.sent).has_malformed)
+            });
+            if multi && misbehaving_other && lc.peer == Peer::Healthy && !faulted && !model.has_malformed && !model.has_gray {
+                v.push(viol(
+                    "C06",
+                    "neighbour-affected",
+                    format!(
+                        "connection {} is well-behaved and sent only well-formed requests, yet its replies are wrong while a malformed / hostile peer was served by the same server: {}",
+                        i,
+                        verdict.violations[0].detail.chars().take(240).collect::<String>()
+                    ),
+                ));
+            }
             // attribution: if the in-memory handler gets the same stream right, the discrepancy comes
             // from the socket path (segmentation: C02) or from concurrency (C13)
             let h_ok = h_clean(&case.cfg, &co.sent);
@@ -1245,6 +1261,23 @@ fn judge_c15(case: &LCase, o: &LObs, v: &mut Vec<Violation>, probes: &mut Vec<(&
                 if injected_signal { " [a signal had interrupted select]" } else { "" }
             ),
         ));
+    }
+    // T2': an accepted connection may not be thrown away: if the peer had sent a complete request
+    // and nothing was ever read from the connection, it was not "served to completion"
+    for (i, c) in o.conns.iter().enumerate() {
+        if let (Some((aseq, _)), Some(_)) = (c.accepted, c.srv_closed) {
+            let had_request = c.sent_at_checkpoint > 0 && c.sent[..c.sent_at_checkpoint.min(c.sent.len())].contains(&0u8);
+            if aseq < ret_seq && c.srv_first_io.is_none() && had_request && !c.faulted_by_script {
+                v.push(viol(
+                    "C15",
+                    "accepted-connection-dropped",
+                    format!(
+                        "connection {} was accepted (listen() returned {}), its request was waiting, but the server dropped it without ever reading from it",
+                        i, text
+                    ),
+                ));
+            }
+        }
     }
     // T2: everything accepted was served to completion before the return
     for (i, c) in o.conns.iter().enumerate() {
@@ -1936,6 +1969,12 @@ pub fn c06_spaces(tier: Tier) -> Vec<Space> {
             let k2: Vec<_> = (0..rng.range(1, 3)).map(|_| *rng.pick(&red)).collect();
             let good1 = token_stream(&cfg, &k1, 1);
             let good2 = token_stream(&cfg, &k2, 2);
+            let hostile = rng.chance(1, 6);
+            if hostile {
+                // well-formed but hostile: pipelines requests, never reads a reply, then just goes away
+                let k: Vec<_> = (0..rng.range(2, 12)).map(|_| crate::alphabet::Kind(crate::alphabet::Base::GetInfo, crate::alphabet::Flags::NONE)).collect();
+                bad = token_stream(&cfg, &k, 0);
+            }
             let mut steps = vec![Step::Connect(0), Step::Connect(1)];
             // interleave the two senders
             let cut_b = rng.range(1, bad.len() as u64) as usize;
@@ -1949,11 +1988,19 @@ pub fn c06_spaces(tier: Tier) -> Vec<Space> {
             }
             steps.extend(order);
             steps.push(Step::Quiesce);
+            if hostile {
+                steps.push(if rng.chance(1, 2) { Step::Close(0) } else { Step::Reset(0) });
+                steps.push(Step::Quiesce);
+            }
             // the later connection
             steps.push(Step::Connect(2));
             steps.push(Step::Send(2, good2.len()));
             let mut lc = LCase::single(&cfg, LConn::healthy(&bad), steps, SchedCfg::random(&mut rng, 1));
             lc.conns = vec![LConn::healthy(&bad), LConn::healthy(&good1), LConn::healthy(&good2)];
+            if hostile {
+                lc.conns[0].peer = Peer::StopReading;
+                lc.conns[0].s2c_cap = rng.range(1, 200) as usize;
+            }
             lc.initial = rng.range(1, 2) as usize;
             Case::L(lc)
         }),
@@ -2089,9 +2136,73 @@ pub fn c13_plan(tier: Tier) -> Plan {
             }),
         });
     }
+    {
+        // histories with quiet moments: generations of connections that open, talk and close, the
+        // server draining completely in between, and at the end an idle connection beside a new one
+        let cfg = cfg.clone();
+        let n = if tier == Tier::Quick { 6_000 } else { 200_000 };
+        spaces.push(Space {
+            name: "L.multi.phased",
+            size: n,
+            exhaustive: false,
+            gen: Box::new(move |_idx, seed| {
+                let mut rng = Rng::new(seed);
+                let red = crate::alphabet::reduced();
+                let mut conns: Vec<LConn> = Vec::new();
+                let mut steps: Vec<Step> = Vec::new();
+                let phases = rng.range(1, 4) as usize;
+                for _ in 0..phases {
+                    let k = rng.range(1, 3) as usize;
+                    let first = conns.len();
+                    for _ in 0..k {
+                        let i = conns.len();
+                        let kinds: Vec<_> = (0..rng.range(1, 3)).map(|_| *rng.pick(&red)).collect();
+                        conns.push(LConn::healthy(&token_stream(&cfg, &kinds, i)));
+                        steps.push(Step::Connect(i));
+                        steps.push(Step::Send(i, 10_000));
+                    }
+                    if rng.chance(1, 2) {
+                        steps.push(Step::Quiesce);
+                    }
+                    // they leave in a random order
+                    let mut order: Vec<usize> = (first..conns.len()).collect();
+                    for a in (1..order.len()).rev() {
+                        order.swap(a, rng.usize(a + 1));
+                    }
+                    for i in order {
+                        steps.push(Step::HalfClose(i));
+                        if rng.chance(1, 2) {
+                            steps.push(Step::Quiesce);
+                        }
+                    }
+                    steps.push(Step::Quiesce);
+                }
+                // the last generation stays: idle connections and one that talks
+                let idle = rng.range(1, 2) as usize;
+                for _ in 0..idle {
+                    let i = conns.len();
+                    conns.push(LConn::healthy(&[]));
+                    steps.push(Step::Connect(i));
+                }
+                if rng.chance(2, 3) {
+                    steps.push(Step::Quiesce);
+                }
+                let i = conns.len();
+                let kinds: Vec<_> = (0..rng.range(1, 3)).map(|_| *rng.pick(&red)).collect();
+                conns.push(LConn::healthy(&token_stream(&cfg, &kinds, i)));
+                steps.push(Step::Connect(i));
+                steps.push(Step::Send(i, 10_000));
+                let mut lc = LCase::single(&cfg, conns[0].clone(), steps, SchedCfg::random(&mut rng, 1));
+                lc.conns = conns;
+                lc.initial = rng.range(1, 2) as usize;
+                lc.max = *rng.pick(&[4usize, 8, 100]);
+                Case::L(lc)
+            }),
+        });
+    }
     Plan {
         spaces,
-        rule: "L: 2..8 (quick) / 2..64 (thorough) simultaneous raw clients against the real listen loop, max_worker_threads above the connection count; each client pipelines a random request sequence over the full alphabet whose tokens embed its connection number; a seeded global interleaving of per-connection send segments, quiescence waits and yields; random server-side short reads / short writes; in the fault-injecting half of the runs some peers say nothing, never read (tiny window: server writes block), send garbage, or reset / close in mid-stream. Oracles: per connection the reply stream equals the reference model of its own requests (strict for healthy peers, prefix-consistent for faulted ones), no foreign token ever appears, and at quiescence *while misbehaving peers are still stalled* every healthy connection has its complete replies. Distinct = (case, hash of the context-switch sequence); non-trivial = at least 6 context switches.".into(),
+        rule: "L: 2..8 (quick) / 2..64 (thorough) simultaneous raw clients against the real listen loop, max_worker_threads above the connection count; each client pipelines a random request sequence over the full alphabet whose tokens embed its connection number; a seeded global interleaving of per-connection send segments, quiescence waits and yields; random server-side short reads / short writes; in the fault-injecting half of the runs some peers say nothing, never read (tiny window: server writes block), send garbage, or reset / close in mid-stream. Oracles: per connection the reply stream equals the reference model of its own requests (strict for healthy peers, prefix-consistent for faulted ones), no foreign token ever appears, and at quiescence *while misbehaving peers are still stalled* every healthy connection has its complete replies. A second space plays histories with quiet moments: 1..4 generations of connections that open, talk and close (in random order) with the server draining completely in between, then idle connections stay open while a new one arrives and must be served. Distinct = (case, hash of the context-switch sequence); non-trivial = at least 6 context switches.".into(),
         level: "exploration",
         real: {
             let mut r = REAL_L.to_vec();
@@ -2114,7 +2225,7 @@ pub fn c14_spaces(tier: Tier) -> Vec<Space> {
     let pools = [(1usize, 1usize), (1, 2), (1, 3), (2, 2), (2, 3), (1, 4), (3, 4), (3, 2)];
     let seeds: u64 = if tier == Tier::Quick { 20 } else { 400 };
     let nconns = [2usize, 3, 4, 5, 6];
-    let size = pools.len() as u64 * nconns.len() as u64 * 4 * seeds;
+    let size = pools.len() as u64 * nconns.len() as u64 * 5 * seeds;
     vec![Space {
         name: "L.pool.bursts",
         size,
@@ -2127,12 +2238,21 @@ pub fn c14_spaces(tier: Tier) -> Vec<Space> {
             let n = nconns[(i % nconns.len() as u64) as usize];
             i /= nconns.len() as u64;
             // 0: all connect, then all send; 1: connect+send one by one without waiting;
-            // 2: the same with a quiescence wait after each; 3: some connections end in between
-            let pattern = i % 4;
+            // 2: the same with a quiescence wait after each; 3: some connections end in between;
+            // 4: as 1, but every second connection upgrades itself and keeps talking the upgraded protocol
+            let pattern = i % 5;
             let mut conns = Vec::new();
             let mut steps = Vec::new();
+            let mut cfg = cfg.clone();
+            if pattern == 4 {
+                cfg.upgrade_mode = 3;
+            }
             for c in 0..n {
-                let s = token_stream(&cfg, &[Kind(Base::Echo, Flags::NONE), Kind(Base::GetInfo, Flags::NONE)], c);
+                let mut s = token_stream(&cfg, &[Kind(Base::Echo, Flags::NONE), Kind(Base::GetInfo, Flags::NONE)], c);
+                if pattern == 4 && c % 2 == 0 {
+                    s.extend(crate::alphabet::frame(&crate::alphabet::upgrade_request(&cfg, c % 4 == 0, &format!("c{}-up", c))));
+                    s.extend_from_slice(b"a\nEnd\n");
+                }
                 conns.push(LConn::healthy(&s));
             }
             match pattern {
@@ -2144,7 +2264,7 @@ pub fn c14_spaces(tier: Tier) -> Vec<Space> {
                         steps.push(Step::Send(c, 10_000));
                     }
                 }
-                1 => {
+                1 | 4 => {
                     for c in 0..n {
                         steps.push(Step::Connect(c));
                         steps.push(Step::Send(c, 10_000));
